@@ -32,6 +32,20 @@ Decided:
          identity (it starts as a copy of it and no element is replaced or removed afterwards -- Middleware.__eq__ compares
          by type, so ``x in merged`` says nothing about identity); the chain is compiled from that list.  Otherwise a route
          carrying its own StatsMiddleware() counts on an instance nobody reads.
+Added in the fourth pass:
+  R19.a  the status key is the code itself, only rendered as text (repr / str / %r of ``getattr(x, 'status_code' | 'code', ..)``), not a
+         value computed from it; the table fetch is judged against next(): no fetch can be followed by next(), and -- only next() and
+         explicit raises being taken to raise -- none is reached without next() having run;
+  R19.b  a reservoir per (route, status): the factories of the table reset() builds construct (a class, a zero-argument lambda /
+         partial / function of the tree whose result is a construction) and never hand out an existing object; the report path
+         (get_stats_dict and what it calls inside the module, receivers typed as above) is read-only: no reset(), no removing / bulk
+         write on the tables, no call of a method that writes its receiver's state; the routing table of the stats application has a
+         route whose endpoint resets, and no route answering GET does;
+  R19.c  _total_count is written only by __init__ and add(); it starts as len() of the object bound to _data; the constructor puts
+         values into the store only through add(); one add() on the subclass is one activation of the base add: inherited, or an
+         override delegating once, and no method that activation dispatches to on the receiver (template-method hooks, resolved on
+         the subclass) enters add() again;
+  R19.d  Application.__init__ binds self.middlewares to a copy (the list the endpoints search cannot be edited from outside).
 Each group runs in isolation (a gap in one does not hide violations of the others).
 Declined: sampling statistics (uniformity); totals per status over histories.
 """
@@ -77,10 +91,10 @@ def run(rep):
     rep.rule('R19.c', 'Reservoir: count once per add; appends and indexed stores entailed in-bounds; resize keeps len<=cap')
     # every group runs even when another one cannot be analysed (its gap is reported as ANALYSIS-ERROR at the end)
     rep.rule('R19.d', 'the StatsMiddleware instance the report reads / resets is the instance the routes run')
-    for group in (_request_records_once, _report_before_reset, _reported_count, _reservoir_add, _reservoir_resize,
+    for group in (_request_records_once, _report_before_reset, _reported_count, _report_read_only, _report_complete, _stats_app_routes, _reservoir_add, _reservoir_resize,
                   _reservoir_init, _reservoir_rest, _report_reads_running_instance):
         _guarded(rep, group, rep, repo, st)
-    for rule, n in (('R19.a', 8), ('R19.b', 6), ('R19.c', 12), ('R19.d', 4)):
+    for rule, n in (('R19.a', 8), ('R19.b', 6), ('R19.c', 12), ('R19.d', 5)):
         rep.guard(rep.floor, rule, n)
 
 
@@ -133,11 +147,45 @@ def _request_records_once(rep, repo, st):
     ok = len(keys) == 2 and keys[0] == '_route' and norm(cur) == 'self.route_hits'
     rep.check('R19.a', fkey(rq, 'key order'), ok, 'hit is filed under self.route_hits[_route][%s]' % (keys[1] if len(keys) == 2 else '?') if ok else
               'hit is not filed under self.route_hits[_route][<status>]: %s' % short(recv), st, add)
+    # the cell exists when the hit is filed: a receiver spelt with plain subscripts relies on the table making the per-route
+    # mapping and the per-status reservoir on first use (defaultdict factories, two levels, ending in a reservoir class)
+    if ok and isinstance(recv, ast.Subscript) and isinstance(recv.value, ast.Subscript):
+        t = _type_of(repo, rq, cur, stmt_of(st, add), look=False)
+        made = t is not None and t[0] == 'map' and t[1] is not None and t[1][0] == 'map' and t[1][1] is not None and t[1][1][0] == 'inst' \
+            and repo.find_method(t[1][1][1], 'add') is not None
+        if t is None:
+            # what is bound to self.route_hits: a plain dict never makes a cell; anything else is not understood
+            vals = [v for m in (rq.cls.methods.values() if rq.cls is not None else []) for s_ in stmts_of(m.node) for tg, v in _assign_pairs(s_)
+                    if norm(tg) == norm(cur)]
+            def plain_map(v):
+                return isinstance(v, (ast.Dict, ast.DictComp)) or (isinstance(v, ast.Call) and call_name(v) in ('dict', 'OrderedDict'))
+
+            def no_cells(v):
+                """a mapping that, at the first or at the second level, is a plain one"""
+                if plain_map(v):
+                    return True
+                if isinstance(v, ast.Call) and call_tail(v) == 'defaultdict' and v.args:
+                    f = v.args[0]
+                    if isinstance(f, ast.Name) and f.id in ('dict', 'list', 'set', 'int', 'float', 'str', 'OrderedDict'):
+                        return True
+                    if isinstance(f, ast.Lambda) and (plain_map(f.body) or isinstance(f.body, (ast.List, ast.Set, ast.Constant))):
+                        return True
+                return False
+            plain = [v for v in vals if no_cells(v)]
+            if not plain:
+                raise AnalysisError('StatsMiddleware.request: cannot tell whether %s creates the cell %s on first use' % (norm(cur), short(recv)))
+        rep.check('R19.a', fkey(rq, 'cell exists'), made,
+                  'the table makes the per-route mapping and the per-status reservoir on first use (%s)' % t[1][1][1].name if made else
+                  'the hit is filed under %s with plain subscripts, but the table bound to %s does not create missing cells (no factories down to a '
+                  'reservoir): the first request of a route raises KeyError inside the middleware and is not counted' % (short(recv), norm(cur)), st, add)
     # the table is looked up when the hit is recorded: reset() re-binds self.route_hits, so a table fetched before
     # next() ran may be an orphan by the time the hit is added (the request would be counted nowhere)
     readers = [s_ for s_ in [stmt_of(st, add)] + add_via[id(add)]
                if any(isinstance(x, ast.Attribute) and x.attr == 'route_hits' for x in diffcon._header_nodes(s_))]
-    early = [s_ for s_ in readers if not cfg.must_pass(next_nodes, cfg.entry, cfg.nodes_of(s_))]
+    # (early: next() can still run once the table was fetched, or -- where only next() and explicit raises are taken to raise,
+    # the assumption stated above -- the fetch can be reached without next() having run at all)
+    early = [s_ for s_ in readers if set(next_nodes) & cfg.reach(cfg.nodes_of(s_)) or
+             not cfg.must_pass(next_nodes, cfg.entry, cfg.nodes_of(s_), normal_only=True, exc_from=set(next_nodes))]
     rep.check('R19.a', fkey(rq, 'table looked up after next()'), bool(readers) and not early,
               'self.route_hits is read after next() returned/raised, where the hit is recorded' if readers and not early else
               'self.route_hits is captured before next() runs (%s): a reset() during the request leaves the hit in an orphaned table'
@@ -157,20 +205,44 @@ def _request_records_once(rep, repo, st):
                     isinstance(n.args[1], ast.Constant) and n.args[1].value == attr and (any_default or _class_name_of(n.args[2], v)):
                 return True
         return False
+    computed = []
+
+    def _rendered(e):
+        """the expression whose text rendering ``e`` is: repr(x) / str(x) / '%r' % x / f'{x!r}' -> x (else e itself)"""
+        while True:
+            if isinstance(e, ast.Call) and call_name(e) in ('repr', 'str', 'ascii') and len(e.args) == 1 and not e.keywords:
+                e = e.args[0]
+            elif isinstance(e, ast.BinOp) and isinstance(e.op, ast.Mod) and isinstance(e.left, ast.Constant) and e.left.value in ('%r', '%s'):
+                e = e.right.elts[0] if isinstance(e.right, ast.Tuple) and len(e.right.elts) == 1 else e.right
+            elif isinstance(e, ast.JoinedStr) and len(e.values) == 1 and isinstance(e.values[0], ast.FormattedValue) and e.values[0].format_spec is None:
+                e = e.values[0].value
+            else:
+                return e
     for s in sv_assigns:
         hs = [p for p in _ancestors(st, s) if isinstance(p, ast.ExceptHandler)]
         val = Lq.resolve(s.value, s)
+        core = _rendered(val)
         if hs:
             if hs[0].name and _lenient(val, hs[0].name, 'code'):
                 exc_ok = True
+                if not (isinstance(core, ast.Call) and call_name(core) == 'getattr'):
+                    computed.append(s)
         elif any(_lenient(val, v, 'status_code', True) or
                  any(isinstance(n, ast.Attribute) and n.attr == 'status_code' and norm(n.value) == v for n in ast.walk(val)) for v in nd):
             body_ok = True
+            if not ((isinstance(core, ast.Call) and call_name(core) == 'getattr') or (isinstance(core, ast.Attribute) and core.attr == 'status_code')):
+                computed.append(s)
+    if computed:
+        # the key is a function of the code, not the code: several codes would be counted under one key
+        body_ok = body_ok and not any(not [p for p in _ancestors(st, s) if isinstance(p, ast.ExceptHandler)] for s in computed)
+        exc_ok = exc_ok and not any([p for p in _ancestors(st, s) if isinstance(p, ast.ExceptHandler)] for s in computed)
     rep.check('R19.a', fkey(rq, 'status key (result)'), body_ok, 'status key derives from status_code of the next() result' if body_ok else
-              'status key on the normal path does not derive from the result\'s status_code', st, rq.node)
+              'status key on the normal path is not the result\'s status_code itself (rendered as text)%s'
+              % (': it is computed from it (%s)' % short(computed[0]) if computed else ''), st, rq.node)
     rep.check('R19.a', fkey(rq, 'status key (exception)'), exc_ok,
               'status key derives from the exception\'s code, else its class name' if exc_ok else
-              'status key on the exceptional path does not derive from exception code / class name', st, rq.node)
+              'status key on the exceptional path is not the exception\'s code / class name itself%s'
+              % (': it is computed from it (%s)' % short(computed[0]) if computed else ''), st, rq.node)
     # Hit field order: the recorded value is Hit(...) with the arguments lined up with the namedtuple's fields
     fields = None
     for v in st.assigns.get('Hit', []):
@@ -266,6 +338,34 @@ def _report_before_reset(rep, repo, st):
         cfg_rs.must_pass(cfg_rs.nodes_of(asg[0][0]), cfg_rs.entry, cfg_rs.exit)
     rep.check('R19.b', fkey(rs, 'self.route_hits'), ok, 'reset() rebinds route_hits to a freshly constructed mapping' if ok else
               'reset() does not rebind route_hits to a fresh mapping', st, rs.node)
+    # counting starts again from zero: the new table is built empty and reset() puts nothing into it
+    if len(asg) == 1:
+        made = Ls.resolve(asg[0][1], asg[0][0])
+        seeded = None
+        if isinstance(made, ast.Call):
+            extra = list(made.args[1:] if call_tail(made) == 'defaultdict' else made.args) + [k.value for k in made.keywords]
+            if extra:
+                seeded = 'it is built from %s' % short(extra[0])
+        elif isinstance(made, ast.Dict) and made.keys:
+            seeded = 'it is built with entries (%s)' % short(made)
+        elif isinstance(made, ast.DictComp):
+            seeded = 'it is built from %s' % short(made.generators[0].iter)
+        sn_ = _self_name(rs) or 'self'
+        for e in effects.effects_in(rs.node):
+            ch = e.chain or []
+            if len(ch) >= 2 and ch[0] == sn_ and ch[1] == 'route_hits' and not (isinstance(e.node, ast.Assign) and e.node is asg[0][0] and len(ch) == 2) and seeded is None:
+                seeded = 'reset() writes into it (%s)' % short(e.node)
+        rep.check('R19.b', fkey(rs, 'starts empty'), seeded is None, 'the table reset() installs is empty' if seeded is None else
+                  'the table reset() installs does not start empty: %s -- counts from before the reset are carried over' % seeded, st, asg[0][0])
+    # every (route, status) cell is a reservoir of its own: the factories of the table construct, they never hand out an object
+    # that already exists (one shared reservoir / inner table would add the counts of different routes or statuses together)
+    if len(asg) == 1:
+        shared = _shared_cell(repo, rs, Ls.resolve(asg[0][1], asg[0][0]), asg[0][0], Ls)
+        if shared is not None:
+            rep.check('R19.b', fkey(rs, 'a reservoir per (route, status)'), not shared[0],
+                      'the factories of the table construct a new inner table / reservoir for every missing key' if not shared[0] else
+                      'the table hands out an existing object for a missing key (%s): different routes / statuses are counted in one and the '
+                      'same object, so no count is the number of requests of its route and status' % shared[1], st, asg[0][0])
     init = st.func('StatsMiddleware.__init__')
     cfg_i = cfg_of(init)
     Lin = diffcon.Locals(init.node, cfg_i)
@@ -275,6 +375,58 @@ def _report_before_reset(rep, repo, st):
     ok = bool(starts) and cfg_i.must_pass(cfg_i.nodes_of_all(starts), cfg_i.entry, cfg_i.exit)
     rep.check('R19.b', fkey(init, 'reset()'), ok, 'constructor initialises the counters (through reset() / a fresh mapping)' if ok else
               'constructor no longer initialises the counters through reset()', st, init.node)
+
+
+def _shared_cell(repo, fi, e, anchor, L, depth=0):
+    """The mapping expression ``e`` (named temporaries looked through): does a missing key get an object that already exists?
+    -> (True, text) yes; (False, '') every level constructs; None: no factory here (cells are made elsewhere)."""
+    if depth > 4 or not (isinstance(e, ast.Call) and call_tail(e) == 'defaultdict' and e.args):
+        return None
+    f = e.args[0]
+    if isinstance(f, ast.Call) and call_tail(f) == 'partial' and f.args:        # partial(defaultdict, C)
+        f = ast.Lambda(args=ast.arguments(posonlyargs=[], args=[], vararg=None, kwonlyargs=[], kw_defaults=[], kwarg=None, defaults=[]),
+                       body=ast.Call(func=f.args[0], args=list(f.args[1:]), keywords=list(f.keywords)))
+    if isinstance(f, ast.Lambda):
+        a = f.args
+        if a.args or a.posonlyargs or a.kwonlyargs or a.vararg or a.kwarg:
+            raise AnalysisError('%s: factory %s takes arguments' % (fi.key, short(f)))
+        return _made_value(repo, fi, f.body, anchor, L, short(f), depth)
+    if isinstance(f, (ast.Name, ast.Attribute)):
+        if _internal_class(repo, fi.mod, f) is not None or norm(f) in ('dict', 'list', 'set', 'int', 'float'):
+            return False, ''
+        # a function of the analysed tree taking no arguments: what it returns, on every path
+        callee = _callee(repo, fi, ast.Call(func=f, args=[], keywords=[])) if isinstance(f, ast.Name) else None
+        if callee is not None and not callee.params():
+            Lc = diffcon.Locals(callee.node, cfg_of(callee))
+            rets = [r for r in returns_of(callee) if r.value is not None]
+            if not rets:
+                raise AnalysisError('%s: factory %s returns nothing' % (fi.key, callee.key))
+            out = [_made_value(repo, callee, Lc.resolve(r.value, r), r, Lc, callee.name + '()', depth) for r in rets]
+            bad = [o for o in out if o[0]]
+            return bad[0] if bad else (False, '')
+        # a local holding a function / an object: a bound lambda is looked through, anything else is not a constructor
+        if isinstance(f, ast.Name):
+            b = L.binding(f.id, anchor)
+            if b is not None and isinstance(b[0], ast.Lambda):
+                return _shared_cell(repo, fi, ast.Call(func=e.func, args=[b[0]], keywords=[]), anchor, L, depth + 1)
+        raise AnalysisError('%s: cannot tell what the factory %s of the table makes' % (fi.key, short(f)))
+    raise AnalysisError('%s: factory %s of the table not understood' % (fi.key, short(f)))
+
+
+def _made_value(repo, fi, body, anchor, L, what, depth):
+    """what a factory hands out (expression ``body`` in function ``fi``): (True, text) an object that already exists, (False, '') a
+    construction; AnalysisError when it cannot be told"""
+    if isinstance(body, (ast.Name, ast.Attribute, ast.Subscript)):
+        return True, '%s returns %s' % (what, short(body))
+    if isinstance(body, ast.Call):
+        if call_tail(body) == 'defaultdict':
+            sub = _shared_cell(repo, fi, body, anchor, L, depth + 1)
+            return sub if sub is not None else (False, '')
+        if _internal_class(repo, fi.mod, body.func) is not None or call_name(body) in ('dict', 'list', 'set'):
+            return False, ''
+    if isinstance(body, (ast.Dict, ast.List, ast.Set, ast.DictComp, ast.ListComp)):
+        return False, ''
+    raise AnalysisError('%s: cannot tell whether the factory %s constructs a new object per key' % (fi.key, what))
 
 
 def _reads_table(repo, fi, depth=0, seen=()):
@@ -355,6 +507,223 @@ def _reported_count(rep, repo, st):
             break
     rep.check('R19.b', fkey(grs, "['count']"), ok, 'reported count is the reservoir total_count (not the sample size)' if ok else
               'reported count is not the reservoir\'s total_count: %s' % why, st, grs.node)
+
+
+MAP_WRITERS = {'pop', 'popitem', 'clear', 'update', 'setdefault', '__delitem__', '__setitem__'}
+
+
+def _report_path(repo, st, start):
+    """the functions a report runs: ``start`` and everything it calls that resolves into the stats module"""
+    out = []
+
+    def visit(fi):
+        if any(fi is f for f in out) or fi.mod is not st or len(out) >= 16:
+            return
+        out.append(fi)
+        for c in walk_body(fi.node):
+            if isinstance(c, ast.Call):
+                f = _resolve_call(repo, fi, c)[0]
+                if f is not None:
+                    visit(f)
+    visit(start)
+    return out
+
+
+def _writes_own_state(repo, m, depth=0):
+    """method ``m`` stores into / mutates an attribute of its receiver (itself or through the methods it calls on it)"""
+    sn = _self_name(m)
+    if sn is None or depth > 3:
+        return None
+    for e in effects.effects_in(m.node):
+        if e.chain and e.chain[0] == sn and len(e.chain) > 1:
+            return e
+    for c in walk_body(m.node):
+        if isinstance(c, ast.Call) and isinstance(c.func, ast.Attribute) and isinstance(c.func.value, ast.Name) and c.func.value.id == sn and m.cls is not None:
+            callee = repo.find_method(m.cls, c.func.attr)
+            if callee is not None and not callee.mod.external and callee is not m:
+                e = _writes_own_state(repo, callee, depth + 1)
+                if e is not None:
+                    return e
+    return None
+
+
+def _report_read_only(rep, repo, st):
+    """the read side leaves the counters as they are: computing a report never resets, removes, resizes or adds anything in the
+    table it reads (the only writer on the report-and-reset path is the reset() after the report)"""
+    start = st.func('get_stats_dict')
+    funcs = _report_path(repo, st, start)
+    for fi in funcs:
+        bad = None
+        for n in walk_body(fi.node):
+            if bad is not None:
+                break
+            if isinstance(n, ast.Call) and isinstance(n.func, ast.Attribute):
+                anchor = stmt_of(st, n)
+                if n.func.attr == 'reset' and not n.args and not n.keywords:
+                    bad = (n, 'resets the counters (%s)' % short(n))
+                    break
+                t = _type_of(repo, fi, n.func.value, anchor) if anchor is not None else None
+                if t is not None and t[0] == 'map' and n.func.attr in MAP_WRITERS:
+                    bad = (n, 'changes the table it reads (%s)' % short(n))
+                elif t is not None and t[0] == 'inst':
+                    m = repo.find_method(t[1], n.func.attr)
+                    if m is not None and not m.mod.external and _self_name(m) is not None and not any(m is f for f in funcs):
+                        e = _writes_own_state(repo, m)
+                        if e is not None:
+                            bad = (n, 'calls %s, which writes %s' % (short(n), norm(e.target)))
+            elif isinstance(n, (ast.Subscript, ast.Attribute)) and isinstance(n.ctx, (ast.Store, ast.Del)):
+                anchor = stmt_of(st, n)
+                t = _type_of(repo, fi, n.value, anchor) if anchor is not None else None
+                if t is not None and (t[0] == 'map' or (t[0] == 'inst' and isinstance(n, ast.Attribute))):
+                    bad = (n, 'stores into the live statistics (%s)' % short(anchor))
+        rep.check('R19.b', fkey(fi, 'report is read-only'), bad is None,
+                  'computing the report changes nothing in the counters it reads' if bad is None else
+                  'the report %s: a read of the statistics changes them, so the counts no longer sum to the requests since the last reset'
+                  % bad[1], st, bad[0] if bad is not None else fi.node)
+
+
+def _report_complete(rep, repo, st):
+    """the report shows every (route, status) that has hits: the loops / comprehensions of the report path run over the whole table
+    (not a slice / filtered view), leave early by nothing, and skip an entry only when its table is empty"""
+    start = st.func('get_stats_dict')
+    for fi in _report_path(repo, st, start):
+        L = diffcon.Locals(fi.node, cfg_of(fi))
+        verdicts = []
+
+        def is_map(e, anchor):
+            t = _type_of(repo, fi, e, anchor)
+            return t is not None and t[0] == 'map'
+
+        def whole(it, anchor):
+            """True: ``it`` runs over the whole mapping; False: over a part of it; None: no mapping of the statistics involved"""
+            e = L.resolve(it, anchor) if cfg_of(fi).nodes_of(anchor) else it
+            while isinstance(e, ast.Call) and call_name(e) in ('list', 'tuple', 'sorted', 'iter', 'reversed', 'dict') and e.args:
+                e = e.args[0]
+            if isinstance(e, ast.Call) and isinstance(e.func, ast.Attribute) and e.func.attr in ('items', 'values', 'keys') and not e.args:
+                e = e.func.value
+            if is_map(e, anchor) or (e is not it and is_map(it, anchor)):
+                return True
+            inner = [x for x in ast.walk(e) if x is not e and isinstance(x, (ast.Name, ast.Attribute, ast.Call)) and is_map(x, anchor)]
+            return False if inner else None
+
+        def filter_verdict(test, value_names, key_names, where):
+            """a test deciding whether an entry is shown: fine when it is the truth value of the entry's table"""
+            t = test
+            neg = False
+            while isinstance(t, ast.UnaryOp) and isinstance(t.op, ast.Not):
+                t, neg = t.operand, not neg
+            if isinstance(t, ast.Name) and t.id in value_names:
+                return neg          # ``if rh`` keeps the entries with hits; ``if not rh`` keeps the empty ones
+            names = set(x.id for x in ast.walk(t) if isinstance(x, ast.Name))
+            if names & key_names and not names & value_names:
+                return True         # decided by the key alone: some route / status is left out
+            raise AnalysisError('%s: cannot tell whether %s %s leaves out entries that have hits' % (fi.key, where, short(test)))
+        for n in walk_body(fi.node):
+            gens = n.generators if isinstance(n, (ast.ListComp, ast.SetComp, ast.DictComp, ast.GeneratorExp)) else []
+            anchor = stmt_of(st, n)
+            for g in gens:
+                w = whole(g.iter, anchor)
+                if w is None:
+                    continue
+                names = [x.id for x in ast.walk(g.target) if isinstance(x, ast.Name)]
+                vals, keys = set(names[-1:]), set(names[:-1]) if len(names) > 1 else set()
+                bad = None
+                if w is False:
+                    bad = 'runs over a part of the table only (%s)' % short(g.iter)
+                for i in g.ifs:
+                    if bad is None and filter_verdict(i, vals, keys, 'the filter'):
+                        bad = 'leaves out entries that have hits (if %s)' % short(i)
+                verdicts.append((n, bad))
+            if isinstance(n, ast.For):
+                w = whole(n.iter, n)
+                if w is None:
+                    continue
+                names = [x.id for x in ast.walk(n.target) if isinstance(x, ast.Name)]
+                vals, keys = set(names[-1:]), set(names[:-1]) if len(names) > 1 else set()
+                bad = None
+                if w is False:
+                    bad = 'runs over a part of the table only (%s)' % short(n.iter)
+                for s_ in ast.walk(n):
+                    if bad is not None or not isinstance(s_, (ast.Break, ast.Continue)):
+                        continue
+                    inner_loops = [p for p in _ancestors(st, s_) if isinstance(p, (ast.For, ast.While))]
+                    if not inner_loops or inner_loops[0] is not n:
+                        continue
+                    if isinstance(s_, ast.Break):
+                        bad = 'stops before the end of the table (break)'
+                        continue
+                    cs = [(t, p) for t, p in conds(fi, s_) if any(anc is n for anc in _ancestors(st, t))]
+                    if not cs:
+                        bad = 'skips every entry (continue)'
+                    for t, p in cs:
+                        if bad is None and filter_verdict(t if not p else ast.UnaryOp(op=ast.Not(), operand=t), vals, keys, 'the skip under'):
+                            bad = 'skips entries that have hits (continue under %s%s)' % ('' if p else 'not ', short(t))
+                verdicts.append((n, bad))
+        for i, (node, bad) in enumerate(verdicts):
+            rep.check('R19.b', fkey(fi, 'report covers the table #%d' % (i + 1)), bad is None,
+                      'the loop over the statistics runs over the whole table and leaves out empty entries only' if bad is None else
+                      'the report %s: requests that were counted do not show up, the reported counts no longer sum to the requests served' % bad, st, node)
+
+
+ROUTE_METHODS = {'GET': ('GET',), 'POST': ('POST',), 'PUT': ('PUT',), 'DELETE': ('DELETE',), 'PATCH': ('PATCH',), 'HEAD': ('HEAD',)}
+
+
+def _resets(repo, st, fi):
+    """``fi`` (transitively, inside the stats module) calls <x>.reset()"""
+    return any(isinstance(c, ast.Call) and isinstance(c.func, ast.Attribute) and c.func.attr == 'reset' and not c.args
+               for f in _report_path(repo, st, fi) for c in walk_body(f.node))
+
+
+def _stats_app_routes(rep, repo, st):
+    """the routing table of the stats application: some route runs the report-and-reset endpoint, and no route that answers GET
+    (a plain read) resets"""
+    mk = st.func('create_stats_app')
+    L = diffcon.Locals(mk.node, cfg_of(mk))
+    apps = [c for c in walk_body(mk.node) if isinstance(c, ast.Call) and call_name(c) == 'Application' and (c.args or c.keywords)]
+    if len(apps) != 1:
+        raise AnalysisError('create_stats_app: expected one Application(...) construction')
+    arg = apps[0].args[0] if apps[0].args else [k.value for k in apps[0].keywords if k.arg == 'routes'][0]
+    table = L.resolve(arg, stmt_of(st, apps[0]))
+    if not isinstance(table, (ast.List, ast.Tuple)) or any(isinstance(e, ast.Starred) for e in table.elts):
+        raise AnalysisError('create_stats_app: the routes given to Application(...) are not a literal list (%s)' % short(table))
+    rows = []
+    for e in table.elts:
+        e = L.resolve(e, stmt_of(st, apps[0]))
+        methods = None      # None: every method (GET included)
+        if isinstance(e, ast.Call) and not any(isinstance(a, ast.Starred) for a in e.args):
+            cname = call_tail(e)
+            if cname in ROUTE_METHODS:
+                methods = ROUTE_METHODS[cname]
+            elif cname == 'Route':
+                mk_ = [k.value for k in e.keywords if k.arg == 'methods']
+                if mk_:
+                    f = repo.try_fold(mk_[0], st)
+                    if not isinstance(f, (list, tuple, set, frozenset)):
+                        raise AnalysisError('create_stats_app: methods of %s not constant' % short(e))
+                    methods = tuple(str(x).upper() for x in f)
+            else:
+                raise AnalysisError('create_stats_app: route %s not understood' % short(e))
+            parts = list(e.args)
+            kw = dict((k.arg, k.value) for k in e.keywords)
+            ep = parts[1] if len(parts) > 1 else kw.get('endpoint')
+        elif isinstance(e, ast.Tuple) and len(e.elts) >= 2:
+            ep = e.elts[1]
+        else:
+            raise AnalysisError('create_stats_app: route %s not understood' % short(e))
+        f = _callee(repo, mk, ast.Call(func=ep, args=[], keywords=[])) if isinstance(ep, ast.Name) else None
+        if f is None:
+            raise AnalysisError('create_stats_app: endpoint %s of route %s is not a function of the analysed tree' % (short(ep), short(e)))
+        rows.append((e, methods, f, _resets(repo, st, f)))
+    resetting = [r for r in rows if r[3]]
+    rep.check('R19.b', fkey(mk, 'a route resets'), bool(resetting),
+              'the stats application has a route whose endpoint reports and resets (%s)' % ', '.join(r[2].name for r in resetting) if resetting else
+              'no route of the stats application resets the counters (%s): the reset endpoint returns totals but counting never starts again from zero'
+              % ', '.join(r[2].name for r in rows), st, table if hasattr(table, 'lineno') else mk.node)
+    bad = [r for r in resetting if r[1] is None or 'GET' in r[1] or 'HEAD' in r[1]]
+    rep.check('R19.b', fkey(mk, 'reads do not reset'), not bad,
+              'every route that answers GET runs an endpoint that leaves the counters alone' if not bad else
+              'the route %s answers GET and its endpoint %s resets the counters: merely looking at the statistics zeroes them, so the counts '
+              'no longer sum to the requests since the last reset' % (short(bad[0][0]), bad[0][2].name), st, bad[0][0] if bad and hasattr(bad[0][0], 'lineno') else mk.node)
 
 
 # ---- R19.c ---------------------------------------------------------------------------------------------------------
@@ -478,6 +847,47 @@ def _reservoir_init(rep, repo, st):
                  for c in caps for l in loc)
     rep.check('R19.c', fkey(ri, 'numeric capacity'), ok, 'any other value is taken as the capacity itself (int(cap))' if ok else
               'a numeric cap is not stored as the capacity', st, ri.node)
+    # the count starts as the number of values the store starts with: len() of the very object bound to _data
+    data_st = [s for s in stmts_of(ri.node) for t, v in _assign_pairs(s) if norm(t) == DATA]
+    cnt_st = [(s, v) for s in stmts_of(ri.node) for t, v in _assign_pairs(s) if norm(t) == 'self._total_count']
+    if not data_st or not cnt_st:
+        raise AnalysisError('Reservoir.__init__: expected a binding of self._data and an initial self._total_count')
+    data_vals = [(v, s) for s in data_st for t, v in _assign_pairs(s) if norm(t) == DATA]      # (one per branch)
+    data_val = data_vals[0][0]
+    for s, v in cnt_st:
+        r = Li.resolve(v, s)
+        ok = isinstance(r, ast.Call) and call_name(r) == 'len' and len(r.args) == 1 and not r.keywords and \
+            (norm(r.args[0]) == DATA or (len(data_vals) == 1 and (Li.same(r.args[0], s, data_val, data_st[0]) or
+                                                                  _same_name_between(cfg_of(ri), r.args[0], s, data_val, data_st[0]))))
+        if not ok and all(isinstance(Li.resolve(dv, ds), ast.List) and not Li.resolve(dv, ds).elts for dv, ds in data_vals):
+            ok = isinstance(r, ast.Constant) and r.value == 0 and type(r.value) is int
+        rep.check('R19.c', fkey(ri, 'initial count'), ok, 'the count starts as len() of the object bound to _data' if ok else
+                  'the count starts as %s, not as the number of values the store starts with (len of the object bound to _data): '
+                  'count and store disagree from the first add() on' % short(v), st, s)
+    # initial values are fed through add() (which counts and bounds them): nothing else in the constructor writes into the store
+    mut = [c for c in walk_body(ri.node) if isinstance(c, ast.Call) and isinstance(c.func, ast.Attribute) and c.func.attr in MUTATORS
+           and Li.text(c.func.value, stmt_of(st, c)) in [DATA] + [norm(Li.resolve(dv, ds)) for dv, ds in data_vals if isinstance(Li.resolve(dv, ds), ast.Name)]]
+    sub_st = [s for s in stmts_of(ri.node) if isinstance(s, (ast.Assign, ast.AugAssign, ast.Delete)) and
+              any(isinstance(t, ast.Subscript) and Li.text(t.value, s) == DATA for t in (s.targets if not isinstance(s, ast.AugAssign) else [s.target]))]
+    feeds = [l for l in stmts_of(ri.node) if isinstance(l, ast.For) and isinstance(l.target, ast.Name) and
+             any(isinstance(c, ast.Call) and norm(c.func) == '%s.add' % (_self_name(ri) or 'self') and len(c.args) == 1 and norm(c.args[0]) == l.target.id
+                 for b in l.body for c in ast.walk(b))]
+    leaked = []
+    for l in feeds:
+        for nm in set(n.id for n in ast.walk(l.iter) if isinstance(n, ast.Name) and n.id in ri.params() and n.id != capp):
+            in_loop = set(id(n) for n in ast.walk(l.iter))
+            for n in walk_body(ri.node):
+                if isinstance(n, ast.Name) and n.id == nm and isinstance(n.ctx, ast.Load) and id(n) not in in_loop:
+                    par = st.parents.get(n)
+                    while isinstance(par, (ast.BoolOp, ast.UnaryOp, ast.Compare)):
+                        n, par = par, st.parents.get(par)
+                    if not (isinstance(par, (ast.If, ast.While, ast.IfExp, ast.Assert)) and par.test is n):
+                        leaked.append(n)
+    ok = not mut and not sub_st and not leaked
+    rep.check('R19.c', fkey(ri, 'initial values go through add()'), ok,
+              'the constructor puts values into the store only by calling add() (%d feeding loop(s))' % len(feeds) if ok else
+              'the constructor writes initial values into the store without add() (%s): they are neither counted nor bounded by the capacity'
+              % short((mut or sub_st or leaked)[0]), st, (mut or sub_st or leaked)[0] if (mut or sub_st or leaked) else ri.node)
 
 
 def _reservoir_rest(rep, repo, st):
@@ -490,8 +900,15 @@ def _reservoir_rest(rep, repo, st):
                 ch = e.chain or []
                 if any(a in ch for a in ('_data', '_cap', '_total_count')):
                     writers.append((m, fi, e))
+    count_writers = {'Reservoir.__init__', 'Reservoir.add'}      # the number of values added changes only where a value is added
     for m, fi, e in writers:
         ok = m is st and fi.qualname in allowed
+        counts = '_total_count' in (e.chain or [])
+        if ok and counts and fi.qualname not in count_writers:
+            rep.check('R19.c', 'writer::%s::%s' % (fi.key, norm(e.target)), False,
+                      '%s writes %s: the number of values added is changed by something other than adding a value (the reported '
+                      'count is no longer the number of add() calls)' % (fi.key, norm(e.target)), m, e.node)
+            continue
         rep.check('R19.c', 'writer::%s::%s' % (fi.key, norm(e.target)), ok,
                   'writer of the sample store is one of Reservoir\'s own methods' if ok else
                   '%s writes the sample store state (%s) outside Reservoir.__init__/add/resize' % (fi.key, norm(e.target)), m, e.node)
@@ -520,17 +937,58 @@ def _reservoir_rest(rep, repo, st):
         ok = rets_it and all(isinstance(r.value, ast.Call) and call_name(r.value) == 'iter' and len(r.value.args) == 1
                              and over(r.value.args[0], r) for r in rets_it)
     rep.check('R19.c', fkey(it), bool(ok), 'iteration is over _data' if ok else 'iteration is not over _data', st, it.node)
-    # subclass delegates exactly once
-    sub = st.func('RouteStatReservoir.add')
-    cfg_s = cfg_of(sub)
-    bases = set(c.name if hasattr(c, 'name') else str(c) for c in repo.mro(sub.cls)[1:]) if sub.cls is not None else set()
-    selfname = sub.node.args.args[0].arg if sub.node.args.args else 'self'
-    sup = [stmt_of(st, c) for c in walk_body(sub.node) if isinstance(c, ast.Call) and call_tail(c) == 'add' and isinstance(c.func, ast.Attribute)
-           and ((isinstance(c.func.value, ast.Call) and call_name(c.func.value) == 'super') or
-                (isinstance(c.func.value, ast.Name) and c.func.value.id in bases and c.args and norm(c.args[0]) == selfname))]
-    ok, why = _exactly_once(cfg_s, cfg_s.nodes_of_all(sup), [cfg_s.entry], [cfg_s.exit])
-    rep.check('R19.c', fkey(sub, 'super().add'), ok, 'RouteStatReservoir.add delegates to Reservoir.add exactly once' if ok else
-              'RouteStatReservoir.add: ' + why, st, sub.node)
+    # one add() on the subclass is exactly one activation of the base add (the counting / sampling judged above): the subclass
+    # inherits it, or its override delegates exactly once; and no method that activation dispatches to on ``self`` (a hook the
+    # subclass overrides -- resolved on the class of the receiver, not on the class the call is written in) enters add again
+    sub_cls = st.cls('RouteStatReservoir')
+    base_add = st.func('Reservoir.add')
+    sub = repo.find_method(sub_cls, 'add')
+    if sub is None or sub.mod.external:
+        raise AnalysisError('RouteStatReservoir: no add() found along its bases')
+    repo.functions_touched.add(sub.key)
+    base_names = set(c.name for c in repo.mro(sub_cls)[1:] if hasattr(c, 'name'))
+
+    def add_entries(fi):
+        """calls in ``fi`` that run an add() on the same object: self.add(..) / super().add(..) / Base.add(self, ..)"""
+        sn = _self_name(fi)
+        out = []
+        for c in walk_body(fi.node):
+            if isinstance(c, ast.Call) and call_tail(c) == 'add' and isinstance(c.func, ast.Attribute):
+                r = c.func.value
+                if (isinstance(r, ast.Call) and call_name(r) == 'super') or (isinstance(r, ast.Name) and r.id == sn and sn) or \
+                        (isinstance(r, ast.Name) and r.id in base_names | {sub_cls.name} and c.args and norm(c.args[0]) == sn):
+                    out.append(c)
+        return out
+    if sub is base_add:
+        rep.check('R19.c', fkey(sub, 'super().add'), True, 'RouteStatReservoir inherits Reservoir.add: one add() is one activation of it', st, sub.node)
+    else:
+        cfg_s = cfg_of(sub)
+        selfname = _self_name(sub) or 'self'
+        sup = [stmt_of(st, c) for c in add_entries(sub) if not (isinstance(c.func.value, ast.Name) and c.func.value.id == selfname)]
+        again = [c for c in add_entries(sub) if isinstance(c.func.value, ast.Name) and c.func.value.id == selfname]
+        ok, why = _exactly_once(cfg_s, cfg_s.nodes_of_all(sup), [cfg_s.entry], [cfg_s.exit])
+        if ok and again:
+            ok, why = False, 'it calls %s on itself' % short(again[0])
+        rep.check('R19.c', fkey(sub, 'super().add'), ok, 'RouteStatReservoir.add delegates to Reservoir.add exactly once' if ok else
+                  'RouteStatReservoir.add: ' + why, st, sub.node)
+    # the methods the activation dispatches to on the receiver itself
+    hooks, todo = [], [base_add] + ([sub] if sub is not base_add else [])
+    while todo:
+        fi = todo.pop()
+        sn = _self_name(fi)
+        for c in walk_body(fi.node):
+            if isinstance(c, ast.Call) and isinstance(c.func, ast.Attribute) and isinstance(c.func.value, ast.Name) and c.func.value.id == sn \
+                    and sn and c.func.attr != 'add':
+                h = repo.find_method(sub_cls, c.func.attr)
+                if h is not None and not h.mod.external and not any(h is x for x in hooks) and len(hooks) < 12:
+                    hooks.append(h)
+                    todo.append(h)
+    for h in hooks:
+        re_entry = add_entries(h)
+        rep.check('R19.c', fkey(h, 'does not enter add() again'), not re_entry,
+                  '%s (run by add() on the receiver) does not enter add() again' % h.qualname if not re_entry else
+                  '%s is run by add() on the receiver and enters add() again (%s): one add() counts / stores more than once'
+                  % (h.qualname, short(re_entry[0])), st, (re_entry or [h.node])[0])
 
 
 # ---- R19.d ---------------------------------------------------------------------------------------------------------
@@ -685,9 +1143,28 @@ def _report_reads_running_instance(rep, repo, st):
                 last = v.right if isinstance(v, ast.BinOp) and isinstance(v.op, ast.Add) else v
                 if isinstance(last, (ast.List, ast.Tuple)) and last.elts and isinstance(last.elts[-1], ast.Name):
                     apps.append(last.elts[-1].id)
-    provider = [n for f in route.functions.values() for n in ast.walk(f.node) if isinstance(n, ast.Dict)
-                for k, v in zip(n.keys, n.values) if isinstance(k, ast.Constant) and k.value == APP_PARAM and norm(v) == 'self.bound_apps[-1]']
-    if len(apps) != 1 or not provider:
+    # every place in the route module where a mapping gets an entry under that name -- a dict display, a keyword
+    # of dict(..) / .update(..), a store ``d['_application'] = v`` (the injectables may be assembled in a helper method)
+    provided = []
+    for f in route.functions.values():
+        Lf = None
+        for n in ast.walk(f.node):
+            vals = []
+            if isinstance(n, ast.Dict):
+                vals = [v for k, v in zip(n.keys, n.values) if isinstance(k, ast.Constant) and k.value == APP_PARAM]
+            elif isinstance(n, ast.Call) and (call_name(n) == 'dict' or call_tail(n) in ('update', 'setdefault')):
+                vals = [k.value for k in n.keywords if k.arg == APP_PARAM]
+                if call_tail(n) == 'setdefault' and len(n.args) == 2 and isinstance(n.args[0], ast.Constant) and n.args[0].value == APP_PARAM:
+                    vals.append(n.args[1])
+            elif isinstance(n, ast.Assign):
+                vals = [n.value for t in n.targets if isinstance(t, ast.Subscript) and isinstance(t.slice, ast.Constant) and t.slice.value == APP_PARAM]
+            for v in vals:
+                s_ = stmt_of(route, v)
+                if Lf is None:
+                    Lf = diffcon.Locals(f.node, cfg_of(f))
+                provided.append(norm(Lf.resolve(v, s_)) if s_ is not None and cfg_of(f).nodes_of(s_) else norm(v))
+    provider = [t for t in provided if t == 'self.bound_apps[-1]']
+    if len(apps) != 1 or not provider or len(provider) != len(provided):
         raise AnalysisError("clastic.route: cannot see that '%s' is the application a route was bound to last (self.bound_apps[-1])" % APP_PARAM)
     app_p = apps[0]
     if app_p not in levels or len([l for l in levels if l is not None]) != len(levels):
@@ -702,6 +1179,27 @@ def _report_reads_running_instance(rep, repo, st):
               "merge_middlewares does not keep the application's own instances ('%s'): %s.  Middleware equality is by type, so a route (or an "
               "embedded application) that lists its own StatsMiddleware() then runs that private instance, while the stats endpoints read the one "
               "in %s.middlewares: its requests are counted where nobody looks" % (kept, why, APP_PARAM), core, node)
+    # (3b) the list the endpoints search belongs to the application: its constructor binds ``self.middlewares`` to a copy, so that
+    #      nobody holding the list that was passed in can later change which collector the endpoints find (the bound routes keep
+    #      running the instances merged at bind time)
+    appm = repo.mod('clastic.application')
+    ai = appm.func('Application.__init__')
+    Lai = diffcon.Locals(ai.node, cfg_of(ai))
+    binds = [(s_, v) for s_ in stmts_of(ai.node) for t, v in _assign_pairs(s_) if norm(t) == '%s.middlewares' % (_self_name(ai) or 'self')]
+    if not binds:
+        raise AnalysisError('Application.__init__: no binding of self.middlewares')
+    shared = []
+    for s_, v in binds:
+        fresh = _fresh_list(Lai, Lai.resolve(v, s_), s_)
+        if fresh is None:
+            raise AnalysisError('Application.__init__: cannot tell whether %s is a list of its own' % short(s_))
+        if not fresh:
+            shared.append(s_)
+    rep.check('R19.d', fkey(ai, 'own middleware list'), not shared,
+              'the application keeps a copy of the middleware list it was given (%s)' % '; '.join(short(s_) for s_, _ in binds) if not shared else
+              '%s keeps the very list object the caller passed: editing that list afterwards changes which StatsMiddleware the stats endpoints find in '
+              '%s.middlewares, while the bound routes go on counting on the instance merged at bind time -- the report no longer shows the requests served'
+              % (short(shared[0]), APP_PARAM), appm, shared[0] if shared else ai.node)
     # (4) the chain is compiled from that very list
     chains = [c for c in walk_body(bi.node) if isinstance(c, ast.Call) and call_name(c) == 'make_middleware_chain' and c.args]
     if len(chains) != 1:
@@ -732,6 +1230,38 @@ def _report_reads_running_instance(rep, repo, st):
             raise AnalysisError('BoundRoute.__init__: cannot relate the list the chain is compiled from (%s) to the merged list %s' % (got, tgt))
     rep.check('R19.d', fkey(bi, 'chain from merged list'), ok, 'the request chain is compiled from the merged list (%s)' % got if ok else
               'the request chain is compiled from %s, not from the merged middleware list %s' % (got, tgt), route, chains[0])
+
+
+def _fresh_list(L, e, anchor, depth=0):
+    """``e`` (resolved) evaluates to a list / tuple object made here: True; to an object that already exists (a name, an attribute,
+    ``x or []``): False; None when it cannot be told"""
+    if depth > 4:
+        return None
+    if isinstance(e, (ast.List, ast.Tuple, ast.ListComp, ast.Set, ast.SetComp)):
+        return True
+    if isinstance(e, ast.Call):
+        if call_name(e) in ('list', 'tuple', 'sorted', 'set', 'frozenset', 'copy', 'deepcopy', 'copy.copy', 'copy.deepcopy', 'reversed') \
+                or (isinstance(e.func, ast.Attribute) and e.func.attr == 'copy' and not e.args):
+            return True
+        return None
+    if isinstance(e, ast.Subscript) and isinstance(e.slice, ast.Slice):
+        return True
+    if isinstance(e, ast.BinOp) and isinstance(e.op, (ast.Add, ast.Mult)):
+        return True
+    if isinstance(e, ast.IfExp):
+        a, b = _fresh_list(L, e.body, anchor, depth + 1), _fresh_list(L, e.orelse, anchor, depth + 1)
+        return False if a is False or b is False else (None if a is None or b is None else True)
+    if isinstance(e, ast.BoolOp):
+        vs = [_fresh_list(L, v, anchor, depth + 1) for v in e.values]
+        return False if any(v is False for v in vs) else (None if any(v is None for v in vs) else True)
+    if isinstance(e, ast.Name) and len(L.defs.get(e.id, [])) > 1:
+        vs = [_fresh_list(L, L.resolve(L._value[(id(b), e.id)], b), b, depth + 1) for b in L.defs[e.id]]
+        return False if any(v is False for v in vs) else (None if any(v is None for v in vs) else True)
+    if isinstance(e, (ast.Name, ast.Attribute)):
+        return False
+    if isinstance(e, ast.Constant):
+        return True
+    return None
 
 
 def _merge_keeps(mm, kept):
@@ -797,6 +1327,21 @@ def _merge_keeps(mm, kept):
                 if n.func.attr not in ADDERS:
                     raise AnalysisError('merge_middlewares: effect of %s on the merged list unknown' % short(n))
     return True, 'the result starts as a copy of it; afterwards elements are only added', None
+
+
+def _same_name_between(cfg, e1, s1, e2, s2):
+    """``e1`` at statement ``s1`` and ``e2`` at ``s2`` are the same plain name and nothing on the way from one statement to the other
+    re-binds it (a parameter defaulted earlier: ``if x is None: x = []`` before both)"""
+    if not (isinstance(e1, ast.Name) and isinstance(e2, ast.Name) and e1.id == e2.id):
+        return False
+    n1 = [n for n in cfg.nodes_of(s1) if cfg.reachable(n)]
+    n2 = [n for n in cfg.nodes_of(s2) if cfg.reachable(n)]
+    if not n1 or not n2:
+        return False
+    a1 = [m for x in n1 for m in cfg.succ[x]]
+    a2 = [m for x in n2 for m in cfg.succ[x]]
+    mid = ((cfg.reach(a1) & cfg.coreach(n2)) | (cfg.reach(a2) & cfg.coreach(n1))) - set(n1) - set(n2)
+    return not cfg._kills(e1, mid)
 
 
 def _uniq(xs):
@@ -934,7 +1479,18 @@ def _type_of(repo, fi, expr, anchor, depth=0, look=True):
                     t = nxt(f.body)
                     return ('map', t) if t is not None else None
                 return None
+            if isinstance(f, ast.Call) and call_tail(f) == 'partial' and f.args and not any(isinstance(a, ast.Starred) for a in f.args):
+                # partial(defaultdict, C): what calling it without further arguments makes
+                t = nxt(ast.Call(func=f.args[0], args=list(f.args[1:]), keywords=list(f.keywords)))
+                return ('map', t) if t is not None else None
             ci = _internal_class(repo, mod, f) if isinstance(f, (ast.Name, ast.Attribute)) else None
+            if ci is None and isinstance(f, ast.Name):
+                # a function of the analysed tree taking no arguments: what it returns
+                callee = _callee(repo, fi, ast.Call(func=f, args=[], keywords=[]))
+                if callee is not None and not callee.params():
+                    rets = [r for r in returns_of(callee) if r.value is not None]
+                    t = _join(_type_of(repo, callee, r.value, r, depth + 2) for r in rets)
+                    return ('map', t) if t is not None else None
             return ('map', ('inst', ci)) if ci is not None else None
         if call_name(e) in ('copy', 'deepcopy', 'copy.copy', 'copy.deepcopy') and len(e.args) == 1 and not e.keywords:
             return nxt(e.args[0])       # a copy is of the class of its original
